@@ -47,7 +47,9 @@ ASSUMPTIONS = ['PLY matches rules in the order function-definition line, then st
                'the implementation terminates on every input within the per-case timeout (observed, not proved)']
 
 BAD_TOKENS = [('$', 'lexer'), ('~', 'lexer'), ('@', 'lexer'), ('BOOLEAN', 'lexer'), ('ENUMERATED', 'lexer'), ('NULL', 'lexer'),
-              ('99999999999999999999999', 'lexer'), ("'FF'B", 'lexer'), ("'12'b", 'lexer'), ("'0G'h", 'lexer'), ('-18446744073709551616', 'lexer'), ('foo-', 'lexer'), ('Bar-', 'lexer'), ('?', 'lexer')]
+              ('99999999999999999999999', 'lexer'), ("'FF'B", 'lexer'), ("'12'b", 'lexer'), ("'0G'h", 'lexer'), ('-18446744073709551616', 'lexer'), ('foo-', 'lexer'), ('Bar-', 'lexer'), ('?', 'lexer'),
+              # literals that never close / close with the wrong radix letter, long enough to show a pattern that backtracks
+              ("'" + '0A' * 24, 'lexer'), ("'" + '01' * 24 + "'x", 'lexer'), ("'" + '00 1B ' * 8, 'lexer')]
 
 
 def cases(ctx):
@@ -79,6 +81,10 @@ def cases(ctx):
             yield 'delete', dialect, text[:off] + text[end:], None
             yield 'duplicate', dialect, text[:off] + tok + ' ' + text[off:], None
             yield 'replace', dialect, text[:off] + other + text[end:], None
+        # 2b. a word that is a keyword in one dialect and forbidden in another: whatever it is here, the outcome is a tree or a located package error
+        for k in idxs[:4]:
+            tok, off, line = pos[k]
+            yield 'insert-dialect-word', dialect, text[:off] + rng.choice(['MAX', 'NetworkAddress', 'MIN', 'Counter', 'Gauge']) + ' ' + text[off:], None
         # 3. a complete EXPORTS clause anywhere but in its one legal place (right after BEGIN, once): the text must be rejected
         for k in idxs[:max(4, per // 4)]:
             tok, off, line = pos[k]
@@ -97,7 +103,9 @@ def cases(ctx):
         yield 'noise', rng.choice(list(pc.DIALECTS)), ''.join(rng.choice(alphabet) for _ in range(n)), None
     for frag in ['X DEFINITIONS ::= BEGIN OBJECT-TYPE MACRO ::= BEGIN never ends', 'X DEFINITIONS ::= BEGIN EXPORTS a, b', 'X DEFINITIONS ::= BEGIN A ::= CHOICE { x',
                  '', '-- only a comment', '\n\n', 'X DEFINITIONS ::= BEGIN END', 'X DEFINITIONS ::= BEGIN END X', 'X DEFINITIONS ::= BEGIN END END',
-                 'X DEFINITIONS ::= BEGIN a OBJECT IDENTIFIER ::= { b 1 } END -- c']:
+                 'X DEFINITIONS ::= BEGIN a OBJECT IDENTIFIER ::= { b 1 } END -- c',
+                 'X DEFINITIONS ::= BEGIN\nT ::= OCTET STRING (SIZE (0..MAX))\nEND', 'X DEFINITIONS ::= BEGIN\nT ::= INTEGER (MIN..MAX)\nEND',
+                 "X DEFINITIONS ::= BEGIN\na OBJECT IDENTIFIER ::= { b 1 }\nc OBJECT-TYPE SYNTAX OCTET STRING MAX-ACCESS read-only STATUS current DESCRIPTION \"d\" DEFVAL { '" + 'AB' * 30 + " } ::= { a 1 }\nEND"]:
         for d in pc.DIALECTS:
             yield 'edge', d, frag, None
 
